@@ -179,7 +179,9 @@ Definition is_digit_of (b : Z) (upper : bool) (c : Z) : bool :=
 (* ---------- the 'c' format ---------- *)
 (* CAbort: a byte >= 0x80 is written into a PyUnicode_New(n, 127) string (PyUnicode_WRITE's assert
    fires unless NDEBUG; with NDEBUG the string object is corrupt) *)
-Inductive cres := CText (chars : list Z) | COverflowError | CValueError | CUnicodeDecodeError | CAbort.
+(* CBufferOverflow (byte-level model only): a write/memset outside `char chars[256]` *)
+Inductive cres := CText (chars : list Z) | COverflowError | CValueError | CUnicodeDecodeError | CAbort
+                | CBufferOverflow.
 
 (* the test in __Pyx_uchar_PyUnicode_From_<T>; true = value accepted.
    fixed = false is the text as it is:
@@ -226,3 +228,114 @@ Definition uchar_to_unicode (fixed : bool) (w : Z) (s : bool) (value width pad :
 Definition py_format_char (v width pad : Z) : cres :=
   if (0 <=? v) && (v <? 1114112) then CText (repeat pad (Z.to_nat (width - 1)) ++ [v])
   else COverflowError.
+
+(* ---------- byte-level model of __Pyx_PyUnicode_FromOrdinal_Padded ----------
+   from_ordinal_padded above abstracts "encode to UTF-8 into chars[256], then PyUnicode_DecodeUTF8"
+   by its intended effect.  Here the bytes are explicit: the three encoding branches of the C text
+   with their guards (value < 0x800, value < 0x10000, else) and their masks/shifts, the 256-byte
+   stack buffer written downwards from its end, memset of the padding, and a strict UTF-8 decoder
+   (PyUnicode_DecodeUTF8 with errors=NULL; RFC 3629: shortest form only, no surrogates, nothing
+   above U+10FFFF, no truncated or stray continuation bytes). *)
+Definition cchar (x : Z) : Z := x mod 256.          (* (char) x, observed as the byte stored *)
+
+(*  *--cpos = (char)(0x80 | (value & 0x3f)); value >>= 6; *--cpos = (char)(0xc0 | (value & 0x1f)); *)
+Definition enc2 (v : Z) : list Z :=
+  let b1 := cchar (Z.lor 128 (Z.land v 63)) in
+  let v1 := Z.shiftr v 6 in
+  let b0 := cchar (Z.lor 192 (Z.land v1 31)) in
+  [b0; b1].
+Definition enc3 (v : Z) : list Z :=
+  let b2 := cchar (Z.lor 128 (Z.land v 63)) in
+  let v1 := Z.shiftr v 6 in
+  let b1 := cchar (Z.lor 128 (Z.land v1 63)) in
+  let v2 := Z.shiftr v1 6 in
+  let b0 := cchar (Z.lor 224 (Z.land v2 15)) in
+  [b0; b1; b2].
+Definition enc4 (v : Z) : list Z :=
+  let b3 := cchar (Z.lor 128 (Z.land v 63)) in
+  let v1 := Z.shiftr v 6 in
+  let b2 := cchar (Z.lor 128 (Z.land v1 63)) in
+  let v2 := Z.shiftr v1 6 in
+  let b1 := cchar (Z.lor 128 (Z.land v2 63)) in
+  let v3 := Z.shiftr v2 6 in
+  let b0 := cchar (Z.lor 240 (Z.land v3 7)) in
+  [b0; b1; b2; b3].
+(* if (value < 0x800) {...} else if (value < 0x10000) {...} else {...} *)
+Definition utf8_enc_c (v : Z) : list Z :=
+  if v <? 2048 then enc2 v else if v <? 65536 then enc3 v else enc4 v.
+
+Definition is_cont (b : Z) : bool := (128 <=? b) && (b <=? 191).
+Definition is_surrogate (cp : Z) : bool := (55296 <=? cp) && (cp <=? 57343).
+
+(* strict UTF-8 decoder; None = UnicodeDecodeError *)
+Fixpoint utf8_decode (l : list Z) : option (list Z) :=
+  match l with
+  | [] => Some []
+  | b0 :: r =>
+    if (b0 <? 0) || (255 <? b0) then None
+    else if b0 <? 128 then option_map (cons b0) (utf8_decode r)
+    else if b0 <? 194 then None                       (* continuation byte, or C0/C1 = overlong *)
+    else if b0 <? 224 then
+      match r with
+      | b1 :: r1 =>
+        if is_cont b1 then option_map (cons ((b0 - 192) * 64 + (b1 - 128))) (utf8_decode r1) else None
+      | _ => None
+      end
+    else if b0 <? 240 then
+      match r with
+      | b1 :: b2 :: r2 =>
+        let cp := (b0 - 224) * 4096 + (b1 - 128) * 64 + (b2 - 128) in
+        if is_cont b1 && is_cont b2 && (2048 <=? cp) && negb (is_surrogate cp)
+        then option_map (cons cp) (utf8_decode r2) else None
+      | _ => None
+      end
+    else if b0 <? 245 then
+      match r with
+      | b1 :: b2 :: b3 :: r3 =>
+        let cp := (b0 - 240) * 262144 + (b1 - 128) * 4096 + (b2 - 128) * 64 + (b3 - 128) in
+        if is_cont b1 && is_cont b2 && is_cont b3 && (65536 <=? cp) && (cp <=? 1114111)
+        then option_map (cons cp) (utf8_decode r3) else None
+      | _ => None
+      end
+    else None
+  end.
+
+Definition CHARS_SIZE : Z := 256.                    (* char chars[256] *)
+
+(* __Pyx_PyUnicode_FromOrdinal_Padded(int value, ulength, padding_char) with explicit bytes *)
+Definition from_ordinal_padded_b (iv ulength pad : Z) : cres :=
+  let plen := ulength - 1 in
+  if (plen <=? 250) && ((iv <? 55296) || (57343 <? iv)) then
+    if iv <=? 255 then
+      (* memset(chars, padding_char, plen); chars[ulength-1] = (char) value; DecodeLatin1(chars, ulength) *)
+      if (plen <? 0) || (CHARS_SIZE <? ulength) then CBufferOverflow
+      else CText (repeat (cchar pad) (Z.to_nat plen) ++ [cchar iv])
+    else
+      let enc := utf8_enc_c iv in
+      (* cpos = chars + sizeof(chars) - len(enc); cpos -= plen; memset(cpos, padding_char, plen) *)
+      let cpos := CHARS_SIZE - Z.of_nat (length enc) - plen in
+      if (plen <? 0) || (cpos <? 0) then CBufferOverflow
+      else match utf8_decode (repeat (cchar pad) (Z.to_nat plen) ++ enc) with
+           | Some l => CText l
+           | None => CUnicodeDecodeError
+           end
+  else if iv <=? 127 then
+    (let c := iv mod 256 in if 127 <? c then CAbort else CText (repeat pad (Z.to_nat plen) ++ [c]))
+  else match from_ordinal iv with
+       | CText l => CText (repeat pad (Z.to_nat plen) ++ l)
+       | e => e
+       end.
+
+Definition uchar_to_unicode_b (fixed : bool) (w : Z) (s : bool) (value width pad : Z) : cres :=
+  if negb (uchar_accepts fixed w s value) then COverflowError
+  else
+    let iv := wrap 32 true value in
+    if width <=? 1 then from_ordinal iv else from_ordinal_padded_b iv width pad.
+
+(* reference encoder (RFC 3629 table) used only as an independent statement of "the bytes are the
+   UTF-8 encoding": 1 to 4 bytes by range, arithmetic form *)
+Definition utf8_ref (cp : Z) : list Z :=
+  if cp <? 128 then [cp]
+  else if cp <? 2048 then [192 + cp / 64; 128 + cp mod 64]
+  else if cp <? 65536 then [224 + cp / 4096; 128 + (cp / 64) mod 64; 128 + cp mod 64]
+  else [240 + cp / 262144; 128 + (cp / 4096) mod 64; 128 + (cp / 64) mod 64; 128 + cp mod 64].
